@@ -148,7 +148,9 @@ func buildStack(layers []any, h http.Handler, tick time.Duration) http.Handler {
 			if intervene {
 				cur, err = buffer.New(cur, buffer.MaxRequestBodyBytes(1))
 			} else {
-				cur, err = buffer.New(cur, buffer.MemRequestBodyBytes(8), buffer.MemResponseBodyBytes(8))
+				// a retry expression that is false for everything the scripted handler answers (no 502/504, first attempt only)
+				cur, err = buffer.New(cur, buffer.MemRequestBodyBytes(8), buffer.MemResponseBodyBytes(8),
+					buffer.Retry(`IsNetworkError() && Attempts() <= 2`))
 			}
 		default:
 			fatal("stack: unknown layer %q", name)
